@@ -115,3 +115,9 @@ Fixpoint bytes_eqb_prefix (p s:bytes) : bool :=
   end.
 Lemma bytes_eqb_prefix_app p s : bytes_eqb_prefix p (p ++ s) = true.
 Proof. induction p as [|x p IH]; cbn [bytes_eqb_prefix app]; [reflexivity|]. rewrite N.eqb_refl, IH. reflexivity. Qed.
+
+(* ---- firstn / skipn at an append boundary *)
+Lemma firstn_app_exact {A} (l1 l2:list A) n : length l1 = n -> firstn n (l1 ++ l2) = l1.
+Proof. intro H. subst n. rewrite firstn_app, Nat.sub_diag, firstn_O, app_nil_r. apply firstn_all. Qed.
+Lemma skipn_app_exact {A} (l1 l2:list A) n : length l1 = n -> skipn n (l1 ++ l2) = l2.
+Proof. intro H. subst n. rewrite skipn_app, Nat.sub_diag, skipn_all. reflexivity. Qed.
